@@ -303,6 +303,13 @@ class LifeCycle:
             if exp == "must-not" and n:
                 self.run.violation("foreign-device-still-served/%s/broadcast-from-it" % self.phase(t), w)
                 return False
+            if exp == "must-not" and "B" in at:
+                # ... nor handed to the BBMD's own network layer
+                self.run.violation("foreign-device-still-served/%s/broadcast-from-it-reaches-the-bbmd-itself" % self.phase(t), w)
+                return False
+            if exp == "must" and at.count("B") != 1:
+                self.run.violation("registered-foreign-device-not-served/broadcast-from-it-at-the-bbmd-itself", dict(w, deliveries=at.count("B")))
+                return False
             if "F" in at:
                 self.run.violation("foreign-broadcast-returned-to-originator", w)
                 return False
@@ -449,6 +456,27 @@ class LifeCycle:
         return True
 
 
+def huge_ttl_case(run, ttl):
+    """registrations with the largest time-to-live values the field can carry: acknowledged, listed (the table can still be
+    read), served"""
+    CLOCK.reset()
+    lc = LifeCycle(run, __import__("random").Random(ttl), ttl, "huge-ttl")
+    try:
+        CLOCK.drive(duration=0.2, max_steps=100000)
+        lc.scan()
+        if not lc.acks:
+            run.violation("registration-not-acknowledged", lc.wit)
+            return
+        for d in (0.0, 0.4, 1.0, 3.0, 2.0):
+            CLOCK.drive(duration=d, max_steps=100000)
+            if not lc.probe():
+                return
+    except StepBudgetExceeded as err:
+        run.violation("life-cycle-does-not-quiesce", dict(lc.wit, error=str(err)))
+        return
+    run.count("huge_ttl_cases")
+
+
 def main():
     run = Run("C13", "exploration", RULE, assumptions=[
         "virtual IP internetwork (vlan.IPNetwork/IPRouter); the UDP multiplexer is replaced by an address adapter",
@@ -468,6 +496,10 @@ def main():
         wf = rng.random() < 0.6
         run.case(("layout", run.shard[0], i), sample={"kind": "layout", "well_formed": wf}, sample_key=("layout", wf))
         layout_case(run, rng, wf)
+    if run.shard[0] == 0:
+        for ttl in (65535, 65534, 65531, 65530, 65529, 40000):
+            run.case(("huge-ttl", ttl), sample=None)
+            huge_ttl_case(run, ttl)
     ttls = [1, 2, 5, 30, 60, 300] if not thorough else [1, 2, 3, 5, 10, 30, 60, 120, 300]
     k = 0
     for ttl in ttls:
